@@ -2,12 +2,20 @@
 #include "clause.h"
 #include "sat_value_listener.h"
 #include "theory.h"
+#include "verif_hooks.h"
 #include <algorithm>
 #include <cmath>
 #include <cassert>
 
 namespace smt
 {
+#ifdef PSTLAB_ORATIO_VERIF
+    namespace verif
+    {
+        SMT_EXPORT record_hook on_record = nullptr;
+    }
+#endif
+
     SMT_EXPORT sat_core::sat_core()
     {
         [[maybe_unused]] var c_false = new_var(); // the false constant..
@@ -552,6 +560,10 @@ namespace smt
 
     void sat_core::record(std::vector<lit> lits) noexcept
     {
+#ifdef PSTLAB_ORATIO_VERIF
+        if (verif::on_record)
+            verif::on_record(*this, lits);
+#endif
         assert(value(lits[0]) == Undefined);
         assert(std::count_if(lits.cbegin(), lits.cend(), [this](auto &p)
                              { return value(p) == True; }) == 0);
